@@ -298,7 +298,7 @@ Proof.
     destruct (valid_key L k); cbn [negb]; [|exact Id]. cbn [fst]. apply Upd.
   - destruct (lookup_h ss h) as [[id t]|]; exact Id.
   - destruct (rw_open ss); exact Id.
-  - destruct (any_open ss); [exact Id|]. unfold eng_write. cbn [fst]. apply Same.
+  - destruct (any_open ss); [exact Id|]. cbn [fst]. apply Same.
   - match goal with |- context [fst ?x] => replace (fst x) with ss by (destruct (s_info ss); reflexivity) end.
     exact Id.
 Qed.
@@ -422,7 +422,7 @@ Definition eops (L : limits) (ss : sstate) (o : sop) : list op :=
                    | Some (_, t) => if is_rw t then [OCommit (t_buf t)] else []
                    | None => []
                    end
-    | QCompact force => if any_open ss then [] else [OCommit (if force then [(marker_key, Some marker_val)] else [])]
+    | QCompact force => if any_open ss then [] else if force then [OCommit []; OFlush] else [OCommit []]
     | _ => []
     end
   end.
@@ -450,7 +450,7 @@ Proof.
     destruct (valid_key L k); reflexivity.
   - destruct (lookup_h ss h) as [[id t]|]; reflexivity.
   - destruct (rw_open ss); reflexivity.
-  - destruct (any_open ss); reflexivity.
+  - destruct (any_open ss); [reflexivity|]. destruct f; reflexivity.
   - destruct (s_info ss); reflexivity.
 Qed.
 
@@ -797,11 +797,9 @@ Ltac same_abs := unfold abs; cbn; rewrite ?app_nil_r; reflexivity.
 (* C19_simulation, one step. On a state whose engine ran the program tr (no log set aside, the
    sequence numbers not exhausted), a request is either turned away by what the service adds —
    with an error and no change — or answered exactly as the embedded specification answers it
-   on the history acknowledged so far, and the two states correspond again. Compact(force) is
-   the exception (compact_force_refuted). *)
+   on the history acknowledged so far, and the two states correspond again. *)
 Theorem simulation_step : forall L c tr ss q,
   s_eng ss = run c tr -> lost_log (run c tr) = false -> (MaxSeq <=? wal_next (s_eng ss)) = false ->
-  q <> QCompact true ->
   match gate L ss q with
   | Some e => service_step L ss q = (ss, PErr e)
   | None =>
@@ -810,7 +808,7 @@ Theorem simulation_step : forall L c tr ss q,
         (abs c (tr ++ eops L ss (SReq q)) (fst (service_step L ss q)), snd (service_step L ss q))
   end.
 Proof.
-  intros L c tr ss q He Hl M Hq.
+  intros L c tr ss q He Hl M.
   assert (Eng : s_eng (fst (service_step L ss q)) = run c (tr ++ eops L ss (SReq q))).
   { rewrite run_snoc, <- He. pose proof (sstep_eng L ss (SReq q)) as S. cbn [sstep] in S.
     destruct (service_step L ss q). exact S. }
@@ -872,11 +870,10 @@ Proof.
     destruct (rw_open ss); [split; [exact Eng|same_abs]|]. split; [exact Eng|].
     pose proof (scan_semantics c tr [] (mkScan [] [] [] [] 0) Hl) as S.
     rewrite <- (scan_rows_full (s_eng ss)), He, S. same_abs.
-  - (* Compact *) destruct f; [congruence|]. unfold a_any_open, abs at 1. cbn [a_reg]. fold (any_open ss).
+  - (* Compact *) unfold a_any_open, abs at 1. cbn [a_reg]. fold (any_open ss).
     destruct (any_open ss); [split; [exact Eng|same_abs]|]. split; [exact Eng|].
-    unfold eng_write, abs. cbn [fst snd s_reg s_next s_info set_eng].
-    rewrite acked_snoc, <- He, (acked_commit _ _ M). unfold commit_w. cbn [buffer_ops fold_left].
-    rewrite app_nil_r. reflexivity.
+    unfold abs. cbn [fst snd s_reg s_next s_info set_eng]. rewrite acked_snoc.
+    destruct f; cbn [acked ack1 buffer_ops fold_left]; rewrite ?app_nil_r; reflexivity.
   - (* GetNodeInfo *) split; [exact Eng|]. unfold abs at 1. cbn [a_info]. destruct (s_info ss); same_abs.
 Qed.
 
@@ -911,7 +908,7 @@ Qed.
 (* C19_simulation for the states a service reaches: after any program of requests and flushes *)
 Theorem simulation : forall L c p prog q,
   let ss := fst (srun L (sinit c p) prog) in
-  (MaxSeq <=? wal_next (s_eng ss)) = false -> q <> QCompact true ->
+  (MaxSeq <=? wal_next (s_eng ss)) = false ->
   match gate L ss q with
   | Some e => service_step L ss q = (ss, PErr e)
   | None =>
@@ -920,9 +917,9 @@ Theorem simulation : forall L c p prog q,
          snd (service_step L ss q))
   end.
 Proof.
-  intros L c p prog q ss M Hq.
+  intros L c p prog q ss M.
   pose proof (simulation_step L c (etrace L (sinit c p) prog) ss q (srun_eng_init L c p prog)
-                (service_log_kept L c p prog) M Hq) as S.
+                (service_log_kept L c p prog) M) as S.
   destruct (gate L ss q); [exact S|]. destruct S as (_ & S). rewrite S.
   rewrite etrace_app, srun_app_fst. fold ss. cbn [etrace]. rewrite app_nil_r.
   rewrite srun_cons. cbn [srun sstep fst]. destruct (service_step L ss q). reflexivity.
@@ -956,27 +953,52 @@ Example empty_value_ex :
 Proof. vm_compute. reflexivity. Qed.
 
 (* ------------------------------------------------------------------------------------ *)
-(* Part F: where the service deviates from the embedded API                               *)
+(* Part F: the transport admits what the limits admit; regression notes                    *)
 (* ------------------------------------------------------------------------------------ *)
 
-(* F1. Compact(force) commits a dummy write: afterwards the database holds the key
-   "__compact_marker__" that no client wrote. The embedded maintenance operations never change
-   the data, so the simulation fails for this request. *)
-Theorem compact_force_refuted :
-  let ss1 := fst (service_step code_limits ss0 (QCompact true)) in
-  gate code_limits ss0 (QCompact true) = None /\
-  snd (service_step code_limits ss0 (QCompact true)) = POk /\
-  snd (service_step code_limits ss1 (QScan (mkScan [] [] [] [] 0))) = PRows [(marker_key, marker_val)] /\
-  snd (service_step code_limits ss1 (QGet marker_key)) = PValue (Some marker_val) /\
-  embedded_step (abs (mkCfg 1000 10) [] ss0) (QCompact true) = (abs (mkCfg 1000 10) [] ss0, POk) /\
-  abs (mkCfg 1000 10) (eops code_limits ss0 (SReq (QCompact true))) ss1 <> abs (mkCfg 1000 10) [] ss0.
-Proof. vm_compute. repeat split; try reflexivity. discriminate. Qed.
-
-(* F2. The transport's receive limit lies below the value limit: a Put whose value is within
-   the documented limit never reaches the service. *)
 Lemma f_len_ge : forall n, n <= f_len n.
 Proof. intros n. unfold f_len. destruct (n =? 0) eqn:E; [apply N.eqb_eq in E|]; lia. Qed.
 
+Lemma varint_len_f_le : forall fuel n, varint_len_f fuel n <= N.of_nat fuel + 1.
+Proof.
+  induction fuel as [|f IH]; intros n; cbn [varint_len_f]; [cbn; lia|].
+  destruct (n <? 128); [lia|]. specialize (IH (n / 128)). lia.
+Qed.
+
+Lemma f_len_le : forall n, f_len n <= n + 11.
+Proof.
+  intros n. unfold f_len. destruct (n =? 0); [lia|]. unfold varint_len.
+  pose proof (varint_len_f_le 9 n) as H. change (N.of_nat 9 + 1) with 10 in H. lia.
+Qed.
+
+Lemma ndigits_f_le : forall fuel n, ndigits_f fuel n <= N.of_nat fuel + 1.
+Proof.
+  induction fuel as [|f IH]; intros n; cbn [ndigits_f]; [cbn; lia|].
+  destruct (n <? 10); [lia|]. specialize (IH (n / 10)). lia.
+Qed.
+
+(* a single write inside the key and value limits always passes the transport of the server as
+   cmd/kevo builds it (since /repo 7ff1cd3: 16 MB; before, see BeforeFixes.transport_refuted):
+   Put, and TxPut on an id in the registry's spelling *)
+Theorem single_write_fits : forall k v s n,
+  valid_key code_limits k = true -> valid_val code_limits v = true ->
+  fits code_limits (QPut k v s) = true /\ fits code_limits (QTxPut (HId n) k v) = true.
+Proof.
+  intros k v s n Hk Hv. apply valid_key_spec in Hk. apply valid_val_spec in Hv.
+  assert (Kk : max_key code_limits = 4096) by reflexivity.
+  assert (Kv : max_val code_limits = 10485760) by reflexivity.
+  assert (Km : 10490000 <= max_msg code_limits) by (apply N.leb_le; vm_compute; reflexivity).
+  rewrite Kk in Hk. rewrite Kv in Hv.
+  pose proof (f_len_le (len k)) as A. pose proof (f_len_le (len v)) as B.
+  pose proof (f_len_le (3 + ndigits n)) as C. pose proof (ndigits_f_le 19 n) as D. change (N.of_nat 19 + 1) with 20 in D.
+  unfold ndigits in C.
+  assert (Fb : f_bool s <= 2) by (destruct s; cbn; lia).
+  unfold fits. cbn [req_size]. unfold f_bytes, f_handle. cbn [h_len]. unfold ndigits.
+  split; apply N.leb_le; lia.
+Qed.
+
+(* a request is refused by the transport only if it is larger than the limit: the general gap
+   lemma, for any limits whose receive limit lies below the value limit *)
 Lemma transport_gap : forall L ss k v s,
   max_msg L < len v -> len v <= max_val L -> valid_key L k = true ->
   within_limits L (QPut k v s) = true /\ service_step L ss (QPut k v s) = (ss, PErr EMsg).
@@ -992,18 +1014,60 @@ Qed.
 Lemma len_repeat : forall (x : N) n, len (repeat x n) = N.of_nat n.
 Proof. intros. unfold len. rewrite repeat_length. reflexivity. Qed.
 
-Theorem transport_refuted : exists k v,
-  within_limits code_limits (QPut k v false) = true /\
-  (forall ss, service_step code_limits ss (QPut k v false) = (ss, PErr EMsg)) /\
-  (forall a, embedded_step a (QPut k v false) = (a_write a [WPut k v], POk)).
+(* Compact never changes what the embedded specification sees, with or without force *)
+Theorem compact_keeps_data : forall L c tr ss f,
+  s_eng ss = run c tr -> any_open ss = false -> fits L (QCompact f) = true ->
+  snd (service_step L ss (QCompact f)) = POk /\
+  abs c (tr ++ eops L ss (SReq (QCompact f))) (fst (service_step L ss (QCompact f))) = abs c tr ss.
 Proof.
-  exists [107]. remember (N.to_nat (max_msg code_limits + 1)) as n eqn:En.
-  exists (repeat 0 n).
-  assert (Hl : len (repeat 0 n) = max_msg code_limits + 1) by (rewrite len_repeat, En; apply N2Nat.id).
-  assert (A : max_msg code_limits < len (repeat 0 n)) by (rewrite Hl; lia).
-  assert (B : len (repeat 0 n) <= max_val code_limits) by (rewrite Hl; apply N.leb_le; vm_compute; reflexivity).
-  assert (C : valid_key code_limits [107] = true) by (vm_compute; reflexivity).
-  split; [apply (transport_gap code_limits ss0 _ _ false A B C)|]. split.
-  - intros ss. apply (transport_gap code_limits ss _ _ false A B C).
-  - intros a. reflexivity.
+  intros L c tr ss f He A F. unfold service_step. rewrite F. cbn [handler eops]. rewrite F, A. cbn [negb].
+  split; [reflexivity|]. unfold abs. cbn [fst s_reg s_next s_info set_eng]. rewrite acked_snoc.
+  destruct f; cbn [acked ack1 buffer_ops fold_left]; rewrite ?app_nil_r; reflexivity.
 Qed.
+
+Example compact_ex :
+  let ss := fst (srun code_limits ss0 [SReq (QPut [97] [1] false); SReq (QCompact true)]) in
+  snd (service_step code_limits ss (QScan (mkScan [] [] [] [] 0))) = PRows [([97], [1])] /\
+  length (ssts (s_eng ss)) = 1%nat.
+Proof. vm_compute. split; reflexivity. Qed.
+
+(* The two deviations the check found on the tree it was built against, as statements about the
+   code of that tree (regression notes: the corpus cases transport-limit.case and
+   compact-marker.case fail again when a fix is reverted). *)
+Module BeforeFixes.
+  (* before /repo 7ff1cd3 the server had no grpc.MaxRecvMsgSize option: gRPC's default applied *)
+  Definition limits_before : limits :=
+    mkLim svc_maxKeySize svc_maxValueSize svc_maxBatchSize grpc_default_max_recv.
+
+  Theorem transport_refuted : exists k v,
+    within_limits limits_before (QPut k v false) = true /\
+    (forall ss, service_step limits_before ss (QPut k v false) = (ss, PErr EMsg)) /\
+    (forall a, embedded_step a (QPut k v false) = (a_write a [WPut k v], POk)).
+  Proof.
+    exists [107]. remember (N.to_nat (max_msg limits_before + 1)) as n eqn:En.
+    exists (repeat 0 n).
+    assert (Hl : len (repeat 0 n) = max_msg limits_before + 1) by (rewrite len_repeat, En; apply N2Nat.id).
+    assert (A : max_msg limits_before < len (repeat 0 n)) by (rewrite Hl; lia).
+    assert (B : len (repeat 0 n) <= max_val limits_before) by (rewrite Hl; apply N.leb_le; vm_compute; reflexivity).
+    assert (C : valid_key limits_before [107] = true) by (vm_compute; reflexivity).
+    split; [apply (transport_gap limits_before ss0 _ _ false A B C)|]. split.
+    - intros ss. apply (transport_gap limits_before ss _ _ false A B C).
+    - intros a. reflexivity.
+  Qed.
+
+  (* before /repo 2b4302e Compact(force) committed "__compact_marker__" = "force" *)
+  Definition marker_key : bytes := [95;95;99;111;109;112;97;99;116;95;109;97;114;107;101;114;95;95].
+  Definition marker_val : bytes := [102;111;114;99;101].
+  Definition compact_before (ss : sstate) (force : bool) : sstate * response :=
+    if any_open ss then (ss, PBlocked)
+    else eng_write ss (tx_commit (s_eng ss) (if force then [(marker_key, Some marker_val)] else [])).
+
+  Theorem compact_force_refuted :
+    let ss1 := fst (compact_before ss0 true) in
+    snd (compact_before ss0 true) = POk /\
+    snd (service_step code_limits ss1 (QScan (mkScan [] [] [] [] 0))) = PRows [(marker_key, marker_val)] /\
+    snd (service_step code_limits ss1 (QGet marker_key)) = PValue (Some marker_val) /\
+    snd (service_step code_limits (fst (service_step code_limits ss0 (QCompact true))) (QScan (mkScan [] [] [] [] 0)))
+      = PRows [].
+  Proof. vm_compute. repeat split; reflexivity. Qed.
+End BeforeFixes.
